@@ -92,4 +92,13 @@ NamespaceTok(ids, content) ==
   IF content = <<>> THEN <<"namespace">> \o name \o <<"{", "}">>
   ELSE <<"namespace">> \o name \o <<"{">> \o content \o <<"}", "//namespace">> \o name
 StructTok(kw, name, content) == <<kw, name, "{">> \o content \o <<"}", ";">>
+\* AccessSpecifiedSection: the access specifier (none for ANONYMOUS) followed by the unchanged contents
+SectionTok(spec, content) == (IF spec = "" THEN <<>> ELSE <<spec, ":">>) \o content
+\* SystemIncludes / ProjectIncludes: a comment naming the kind (plural iff more than one) and one #include per name
+\* a name is [raw, sys (its tokens), q (the quoted literal as one token)]
+IncludeTok(system, name) == <<"#", "include">> \o (IF system THEN <<"<">> \o name.sys \o <<">">> ELSE <<name.q>>)
+IncludesTok(system, names) ==
+  <<(IF system THEN "//System" ELSE "//Project"), (IF Len(names) > 1 THEN "includes" ELSE "include")>>
+  \o Cat([i \in 1..Len(names) |-> IncludeTok(system, names[i])])
+MemberTok(t, name) == TypeTok(t) \o <<name, ";">>
 =============================================================================
